@@ -262,6 +262,21 @@ func (x *Exec) quantifyForalls(env *CEnv, c *Contract, unbound []ParamSpec, qreq
 // havocModifies replaces the heap arrays named by a modifies list.
 func (x *Exec) havocModifies(st *State, c *Contract, items []string, env *CEnv) {
 	for _, it := range items {
+		if it2 := strings.TrimSpace(it); strings.HasPrefix(it2, "newelems(") && strings.HasSuffix(it2, ")") {
+			// only arrays allocated by the callee differ afterwards
+			t := x.resolveType(c.Pkg, it2[9:len(it2)-1])
+			for _, l := range st.m.leaves(t) {
+				key := elemKey(t) + "|" + l.path
+				srt := ArrOf(SInt, ArrOf(st.m.idx(), l.sort))
+				old := st.heapGet(key, srt)
+				na := st.declare("Hn."+key, srt)
+				a := freshName("a")
+				st.assume(tm(SBool, "(forall ((%s Int)) (! (=> (<= %s %s) (= (select %s %s) (select %s %s))) :pattern ((select %s %s))))",
+					a, a, st.alloc.S, na.S, a, old.S, a, na.S, a))
+				st.heap[key] = na
+			}
+			continue
+		}
 		if strings.HasPrefix(strings.TrimSpace(it), "slice ") {
 			x.havocSlice(st, c, strings.TrimSpace(strings.TrimPrefix(strings.TrimSpace(it), "slice ")), env)
 			continue
@@ -317,6 +332,12 @@ func (x *Exec) modifiesKeys(st *State, pkg, item string) []heapKey {
 				}
 			}
 			out = append(out, heapKey{k, st.sorts[k]})
+		}
+		return out
+	case strings.HasPrefix(item, "newelems(") && strings.HasSuffix(item, ")"):
+		t := x.resolveType(pkg, item[9:len(item)-1])
+		for _, l := range m.leaves(t) {
+			out = append(out, heapKey{elemKey(t) + "|" + l.path, ArrOf(SInt, ArrOf(m.idx(), l.sort))})
 		}
 		return out
 	case strings.HasPrefix(item, "slice "):
